@@ -28,6 +28,16 @@ def correspondence(ctx):
                  "(three substitutions with two dictionaries); layouts whose strings are byte strings that are not valid UTF-8 "
                  "(built by hand, observables hex-encoded). "
                  "non-trivial = non-empty dictionary and at least one step or inspection; distinct = distinct input JSON")
+    # coverage-guided differential fuzzing of SubstituteParameters against the harness's single-pass oracle: the fuzzer sees
+    # the library's coverage, so a new fast path or special case is a branch it tries to reach (search only, not the proof)
+    secs = 15 if ctx.tier == 'quick' else 180
+    f = ctx.go_fuzz('c18', 'FuzzSubstitute', secs)
+    corr.extra['fuzz_seconds'] = secs
+    if f:
+        corr.violations.append({'klass': 'fuzz-substitute', 'case': {'id': 'fuzz', 'klass': 'fuzz-substitute',
+                                                                    'input': {'entry': 'fuzz', 'target': 'FuzzSubstitute', 'go_fuzz_corpus_file': f['corpus_file']}},
+                                'impl': f['message'], 'expected': 'the single-pass oracle of harness/c18',
+                                'what': 'coverage-guided differential fuzzing found a text and dictionary on which SubstituteParameters differs from the oracle'})
     if ctx.tier == 'thorough':
         # string level: 200 000 random (text, dictionary) pairs through SubstituteParameters, the extracted
         # replacer model and the extracted declarative spec
@@ -58,6 +68,12 @@ def correspondence(ctx):
 
 
 def replay(ctx, case):
+    inp = (case.get('case', case) or {}).get('input') or {}
+    if isinstance(inp, dict) and inp.get('entry') == 'fuzz':
+        print('failing input of the fuzz target %s (Go corpus file format):\n%s' % (inp.get('target'), inp.get('go_fuzz_corpus_file')))
+        print('re-run: save it as harness/c18/testdata/fuzz/%s/replay and run `go test -tags verif -run %s/replay ./c18` in /verif/harness' % (inp.get('target'), inp.get('target')))
+        print(case.get('impl', ''))
+        return
     binp = ctx.go_build('c18')
     p = os.path.join(ctx.dir, 'replay_case.json')
     import json
